@@ -79,6 +79,65 @@ def task_builder_defaults(job):
     return out
 
 
+from ..fakeclock import FakeClock      # noqa: E402
+
+
+def task_builder_clock(job):
+    """subworker task: default dates of the builders at frozen instants (the clock cases of Builders.tla)."""
+    mc, common = lib.cct("metadata_construction"), lib.cct("common")
+    clock = FakeClock()
+    out = []
+    try:
+        for c in job["cases"]:
+            clock.set(c["y"], c["m"], c["d"], c["s"])
+            for fn in ("deleg:root", "deleg:key_mgr", "root", "helper0", "helper365"):
+                try:
+                    if fn.startswith("deleg"):
+                        md = mc.build_delegating_metadata(fn.split(":")[1])
+                        rec = {"ts": md.get("timestamp"), "exp": md.get("expiration")}
+                    elif fn == "root":
+                        md = mc.build_root_metadata(3, [sg.KA], 1, [sg.KB], 1)
+                        rec = {"ts": md.get("timestamp"), "exp": md.get("expiration")}
+                    else:
+                        rec = {"got": common.iso8601_time_plus_delta(datetime.timedelta(days=int(fn[6:])))}
+                except Exception as e:  # noqa: BLE001
+                    rec = {"error": f"{type(e).__name__}: {e}"}
+                out.append(dict(rec, fn=fn, case=c))
+    finally:
+        clock.close()
+    return out
+
+
+def judge_clock(run, recs, config):
+    import calendar
+    for rec in recs:
+        c = rec["case"]
+        now = calendar.timegm((c["y"], c["m"], c["d"], 0, 0, 0)) + c["s"]
+        E = lambda s: calendar.timegm(datetime.datetime.strptime(s, FMT).timetuple())      # noqa: E731
+        run.evaluations += 1
+        what = None
+        try:
+            if "error" in rec:
+                what = "raises " + rec["error"].split(":")[0]
+            elif rec["fn"].startswith("helper"):
+                if twins.twin_date(rec["got"]) != twins.ACCEPT or E(rec["got"]) != now + 86400 * int(rec["fn"][6:]):
+                    what = "iso8601_time_plus_delta is not the clock's UTC time plus the given delta"
+            else:
+                if twins.twin_date(rec["ts"]) != twins.ACCEPT or twins.twin_date(rec["exp"]) != twins.ACCEPT:
+                    what = "default dates are not canonical UTC timestamps"
+                elif E(rec["ts"]) != now:
+                    what = "default timestamp is not the clock's UTC time"
+                elif not (86400 * c["min_days"] <= E(rec["exp"]) - E(rec["ts"]) <= 86400 * c["max_days"]):
+                    what = f"default expiration is {(E(rec['exp']) - E(rec['ts'])) / 86400:.2f} days after the timestamp, not about one year"
+        except Exception as e:  # noqa: BLE001
+            what = f"default dates malformed ({type(e).__name__})"
+        if what:
+            name = "iso8601_time_plus_delta" if rec["fn"].startswith("helper") else ("build_root_metadata" if rec["fn"] == "root" else "build_delegating_metadata")
+            kind = ("29 February" if (c["m"], c["d"]) == (2, 29) else "31 December" if (c["m"], c["d"]) == (12, 31) else "28 February" if (c["m"], c["d"]) == (2, 28) else "other day")
+            run.violation(f"{name} with the clock at a {kind} ({config}): {what.split(' days after')[0] if 'days after' in what else what}",
+                          {"kind": "builder", "configuration": config, "record": rec, "what": what})
+
+
 def judge_defaults(run, recs, config):
     P = lambda s: datetime.datetime.strptime(s, FMT)      # noqa: E731
     for rec in recs:
@@ -97,7 +156,7 @@ def judge_defaults(run, recs, config):
                     what = "default dates are not canonical UTC timestamps"
                 elif not (P(rec["t0"]) <= ts <= P(rec["t1"]) + datetime.timedelta(seconds=1)):
                     what = "default timestamp is not the current UTC time"
-                elif abs((ex - ts) - datetime.timedelta(days=365)) > datetime.timedelta(seconds=2):
+                elif not (datetime.timedelta(days=365) - datetime.timedelta(seconds=2) <= ex - ts <= datetime.timedelta(days=366) + datetime.timedelta(seconds=2)):
                     what = "default expiration is not about one year after the timestamp"
         except Exception as e:  # noqa: BLE001
             what = f"default dates malformed ({type(e).__name__})"
@@ -117,6 +176,8 @@ def check(run):
     r = run.tlc("Builders", "Builders_quick.cfg" if quick else "Builders_thorough.cfg", expect_cases=True, timeout=1800)
     rr = random.Random(run.seed)
     spec_version = common.SECURITY_METADATA_SPEC_VERSION
+    clock_cases = [dict(tc["case"], min_days=tc["min_days"], max_days=tc["max_days"]) for tc in r.cases if tc["case"]["fn"] == "clock"]
+    r.cases = [tc for tc in r.cases if tc["case"]["fn"] != "clock"]
     for tc in r.cases:
         c = tc["case"]
         args_desc = {k: v for k, v in c.items() if k != "fn"}
@@ -188,9 +249,9 @@ def check(run):
                         ts = datetime.datetime.strptime(md["timestamp"], FMT)
                         if not (t0 <= ts <= t1 + datetime.timedelta(seconds=1)):
                             problems.append("default timestamp is not the current UTC time")
-                        if not (ex > ts and abs((ex - ts) - datetime.timedelta(days=365)) <= datetime.timedelta(seconds=2)):
+                        if not (datetime.timedelta(days=365) - datetime.timedelta(seconds=2) <= ex - ts <= datetime.timedelta(days=366) + datetime.timedelta(seconds=2)):
                             problems.append("default expiration is not about one year after the timestamp")
-                    elif not (abs((ex - t0) - datetime.timedelta(days=365)) <= datetime.timedelta(seconds=3)):
+                    elif not (datetime.timedelta(days=365) - datetime.timedelta(seconds=3) <= ex - t0 <= datetime.timedelta(days=366) + datetime.timedelta(seconds=3)):
                         problems.append("default expiration is not about one year from now")
             except Exception as e:  # noqa: BLE001
                 problems.append(f"default dates malformed: {e}")
@@ -247,6 +308,17 @@ def check(run):
         judge_defaults(run, recs, cfg[0])
         run._distinct.add("defaults-" + cfg[0])
     run.extra["configurations"] = [c[0] for c in procs.CONFIGS]
+    # the clock cases of Builders.tla: the builders at frozen instants, in three configurations (UTC, a far-east and a far-west time zone)
+    run.mutant("Builders", "Builders_mut_expiry_any.cfg", expect="ClockInv", timeout=300)
+    if not clock_cases:
+        raise MachineryFailure("Builders.tla emitted no clock cases")
+    for cfg in (procs.CONFIGS[0], procs.CONFIGS[2], procs.CONFIGS[3]):
+        recs = procs.run_job(run, {"task": "builder_clock", "cases": clock_cases, "task_modules": ["cctverif.props.c16"]}, cfg)
+        judge_clock(run, recs, cfg[0])
+    for c in clock_cases:
+        run._distinct.add("clock-%d-%d-%d-%d" % (c["y"], c["m"], c["d"], c["s"]))
+    run.traces_validated += len(clock_cases)
+    run.extra["clock_instants"] = len(clock_cases)
     # built root chains: v(n) -> v(n+1) -> v(n+2), threshold-signed with the OpenPGP signer, judged by Trace_Root.tla
     keys = gamma.Keys(4, run.seed, offset=700)
     traces, conc = [], {}
